@@ -40,7 +40,11 @@ SolveClause(c, r) ==
       [] c = "noSolutionLost" -> r.nAfter >= r.nBefore
       [] c = "topNotWorse" -> (r.hadTop /\ r.nAfter >= 1 => ~Worse(r.topAfter, r.topBefore))
       [] c = "invalidStartOnlyIfInvalid" -> (r.status = "INVALID_START" => ValidStartCells(r) = {})
-      [] c = "invalidGoalOnlyIfInvalid" -> (r.status = "INVALID_GOAL" /\ (r.kval < 0 \/ r.evals <= r.kval) => GoalCells(r) \subseteq r.obst)
+      [] c = "invalidGoalOnlyIfInvalid" ->
+             (* (a planner interrupted while it was still looking for a valid goal state may say INVALID_GOAL: *)
+             (*  the condition had fired - budget used up, or "stop on exact" with an exact solution at entry) *)
+             (r.status = "INVALID_GOAL" /\ ((r.kval < 0 /\ ~r.firedAtEntry) \/ (r.kval >= 0 /\ r.evals <= r.kval))
+                  => GoalCells(r) \subseteq r.obst)
       [] c = "exactOnlyIfReachable" ->
              (r.status = "EXACT" /\ r.thr = "tiny" /\ (\E i \in 1..Len(r.sols) : r.sols[i].added /\ ~r.sols[i].approx)
                   => GoalCells(r) \cap ReachAny(r) # {})
